@@ -1,6 +1,6 @@
 """C04 — crash at any instant: survivor cleanup restores a clean, usable system."""
 import core, re
-import pC09, pC10, pC04fs, pC04ports, pC04svc
+import pC09, pC10, pC04fs, pC04ports, pC04svc, pC04port
 
 
 def run(ctx):
@@ -27,14 +27,17 @@ def run(ctx):
         pC04ports.ports_part(ctx)
         # service level: the creator / opener of a service killed at every system call; survivors' clean-up, then the name is created again
         pC04svc.svc_part(ctx)
+        # port creation: a process killed at every system call of Publisher / Subscriber creation; clean-up; the living holder works on
+        pC04port.port_part(ctx)
     return core.finish(
         ctx, level="proof",
         rule="shared-memory level: RobustUniqueIndexSet and the registry Container with one logical thread (a process) killed after k atomic steps (k random in 0..44, i.e. at any "
              "point inside acquire / release / add / remove / recover / update_state), survivors recovering the dead owner and refreshing; each thread through its own mapping; every "
-             "atomic step compared with the crash-extended L2 model (Sys.withCrash); ownership / registry oracles on the implementation's trace alone. distinct = distinct (program, interleaving). " + pC04fs.RULE_FS + ". " + pC04svc.RULE + ". " + pC04ports.RULE,
+             "atomic step compared with the crash-extended L2 model (Sys.withCrash); ownership / registry oracles on the implementation's trace alone. distinct = distinct (program, interleaving). " + pC04fs.RULE_FS + ". " + pC04svc.RULE + ". " + pC04port.RULE + ". " + pC04ports.RULE,
         extra_assumptions=["PARTIAL: theorems cover (i) the shared-memory structures of the lifecycle (port/node registries = Container over RobustUniqueIndexSet) with a crash at any atomic step, "
                            "(ii) the node's files with a kill at every system call of creation / drop / clean-up, (iii) publish-subscribe ports with the death of a node BETWEEN API calls (death + clean-up "
                            "= orderly drop, expressed with the proved L1 model's own operations); (iv) the creator / opener of a publish-subscribe service killed at every system call, then clean-up and re-creation; "
-                           "a process killed INSIDE a port's creation or removal, and the other messaging patterns' service files, are not modelled",
+                           "(v) a process killed at every system call of the creation of a Publisher / Subscriber of such a service, clean-up, the living holder works on; a process killed inside a port's "
+                           "REMOVAL, the other port kinds and the other messaging patterns' files are not modelled",
                            "a death never runs destructors: the harness unwinds the logical thread; the traced components have no destructor with shared-memory effects",
-                           "sequentially consistent interleavings only"] + pC04svc.ASSUMPTIONS + pC04ports.ASSUMPTIONS)
+                           "sequentially consistent interleavings only"] + pC04svc.ASSUMPTIONS + pC04port.ASSUMPTIONS + pC04ports.ASSUMPTIONS)
